@@ -101,6 +101,7 @@ type pMethod struct {
 	Extra      []string   `json:"extra,omitempty"`
 	ValueRecv  bool       `json:"valueRecv,omitempty"` // func (c AController) instead of (c *AController)
 	Ptag       string     `json:"ptag,omitempty"`      // which perturbation(s) produced this method (label only)
+	Grouped    bool       `json:"grouped,omitempty"`   // adjacent parameters of one type are written as an identifier list: (a, b, c string, d int)
 }
 
 type pField struct {
@@ -110,6 +111,8 @@ type pField struct {
 	Valid string `json:"valid,omitempty"` // validate tag content
 	Desc  string `json:"desc,omitempty"`
 	Embed bool   `json:"embed,omitempty"`
+	// Deprecated: the field carries its own "// @Deprecated" annotation (a usage-site marker)
+	Deprecated bool `json:"deprecated,omitempty"`
 }
 
 type pConst struct {
@@ -128,6 +131,8 @@ type pType struct {
 	Desc   string   `json:"desc,omitempty"`
 	Raw    string   `json:"raw,omitempty"`   // verbatim declaration text for kind raw
 	ErrorT bool     `json:"errorT,omitempty"` // struct embeds error (custom error type)
+	// Deprecated: the declaration carries "// @Deprecated"
+	Deprecated bool `json:"deprecated,omitempty"`
 }
 
 type pCase struct {
@@ -286,6 +291,9 @@ func writeProjectP(dir string, pc *pCase, repo string, hook bodyHook, prefix str
 		for _, l := range commentLines(t.Desc) {
 			fb.body.WriteString(l + "\n")
 		}
+		if t.Deprecated && t.Kind != "raw" {
+			fb.body.WriteString("// @Deprecated\n")
+		}
 		switch t.Kind {
 		case "raw":
 			fb.body.WriteString(localType(t.Raw, t.Pkg, fb.imports, pkgs) + "\n\n")
@@ -297,6 +305,9 @@ func writeProjectP(dir string, pc *pCase, repo string, hook bodyHook, prefix str
 			for _, f := range t.Fields {
 				for _, l := range commentLines(f.Desc) {
 					fb.body.WriteString("\t" + l + "\n")
+				}
+				if f.Deprecated {
+					fb.body.WriteString("\t// @Deprecated\n")
 				}
 				tags := []string{}
 				if f.JSON != "" {
@@ -395,8 +406,14 @@ func writeProjectP(dir string, pc *pCase, repo string, hook bodyHook, prefix str
 			fb.body.WriteString(l + "\n")
 		}
 		params := []string{}
-		for _, p := range m.Sig {
-			params = append(params, p.Name+" "+localType(p.Type, c.Pkg, fb.imports, pkgs))
+		for i := 0; i < len(m.Sig); i++ {
+			p := m.Sig[i]
+			names := []string{p.Name}
+			for m.Grouped && i+1 < len(m.Sig) && m.Sig[i+1].Type == p.Type {
+				i++
+				names = append(names, m.Sig[i].Name)
+			}
+			params = append(params, strings.Join(names, ", ")+" "+localType(p.Type, c.Pkg, fb.imports, pkgs))
 		}
 		retLocal := []string{}
 		for _, r := range m.Ret {
